@@ -56,7 +56,7 @@ Theorem C08_oracle_sound : forall c, check_C08 c = true ->
   match c with
   | CHist r steps => forall L o, In (L, o) steps -> step_meaning r L o
   | CCodec ents decoded dpacks => Permutation ents decoded /\ (forall p, In p dpacks <-> In p (map e_pack ents))
-  | CReject f crashed errored => crashed = false /\ (file_fits f = false -> errored = true)
+  | CReject f crashed errored => crashed = false /\ errored = negb (file_fits f)
   end.
 Proof. exact check_C08_sound. Qed.
 Theorem C08_step_ok_iff : forall r L o, step_ok r L o = true <-> step_meaning r L o.
